@@ -19,9 +19,9 @@ DEL = ['delete_vertex', 'delete_edge', 'delete_face', 'delete_cell']
 SWAP = ['swap_vertices', 'swap_edges', 'swap_faces', 'swap_cells']
 BUT = ['enable_vbu', 'enable_ebu', 'enable_fbu']
 ADDS = ['add_vertex', 'add_n_vertices', 'add_edge', 'add_face_v', 'add_cell_closed']
-ALLSEEDS = list(range(14))
-EXTRA = [9, 10, 11, 12]        # prism, edge-sharing tets, loop edge / valence-1 face / 2-gon, pyramid on pre-existing mixed-direction edges
-MAINSEEDS = [1, 2, 3, 4, 5, 6, 7, 8]
+ALLSEEDS = list(range(15))
+EXTRA = [9, 10, 11, 12, 14]        # prism, edge-sharing tets, loop edge / valence-1 face / 2-gon, pyramid on pre-existing mixed-direction edges
+MAINSEEDS = [1, 2, 3, 4, 5, 6, 7, 8, 14]   # 14: dangling face first + tetrahedron stored inward (odd halffaces)
 
 # per property: which oracles the validator evaluates, executor options,
 # and the TLC configurations of the two tiers
